@@ -58,7 +58,8 @@ def check_tree(case, R):
     check_on(t, p, R)
 
 
-def check_on(t, p, R):
+def check_on(t, p, R, nested=False):
+    """nested: `t` is a branch tree judged as a tree in its own right (its own branch tree / longest path are not built again)."""
     n = len(p)
     tags = build.tags_xyz(t)
     snap = build.snapshot(t)
@@ -123,7 +124,7 @@ def check_on(t, p, R):
                 R.check(len(want) == 1 and got == want[0], "node.branch", lambda: f"p={p} node {i}: got {got} want {want}")
 
     # ---- branch tree
-    if n >= 2:
+    if n >= 2 and not nested:
         from swcgeom.core import BranchTree
         from swcgeom.transforms import ToBranchTree
 
@@ -180,8 +181,31 @@ def check_on(t, p, R):
                     R.check(build.snapshot(t) == snap, "branchtree:detached", lambda: f"p={p} editing a remembered branch changed the tree")
                     for arr, old in undo:
                         arr[...] = old
+                    # a copy of the branch tree is independent: emptying / editing what the COPY remembers leaves the original's memory alone
+                    okc, bt2 = R.impl("BranchTree.copy", bt.copy)
+                    if okc:
+                        mem2 = sorted((tag2orig.get(btags[idx], -9), tuple(tuple(float(v) for v in row) for row in b.xyzr().tolist()))
+                                      for idx, lst in bt2.branches.items() for b in lst)
+                        R.check(mem2 == before and build.canon_tree(bt2) == build.canon_tree(bt), "branchtree:copy-differs", lambda: f"p={p} copy remembers {mem2[:3]}")
+                        for lst in bt2.branches.values():
+                            for b in lst:
+                                b.attach.ndata["x"] += 1
+                                b.attach.ndata["r"] *= 2
+                            del lst[:]
+                        bt2.branches.clear()
+                        bt2.ndata["x"] += 1
+                        now = sorted((tag2orig.get(btags[idx], -9), tuple(tuple(float(v) for v in row) for row in b.xyzr().tolist()))
+                                     for idx, lst in bt.branches.items() for b in lst)
+                        R.check(now == before and build.tags_xyz(bt) == btags, "branchtree:copy-not-independent",
+                                lambda: f"p={p} after editing a copy() of the branch tree the original remembers {now[:3]}, before {before[:3]}")
+                # the branch tree is a tree: its own tips / furcations / branches / paths must be right as well
+                if wf:
+                    check_on(bt, bp, R, nested=True)
 
     # ---- longest path
+    if nested:
+        R.check(build.snapshot(t) == snap, "input-modified", lambda: f"p={p} (branch tree)")
+        return
     from swcgeom.transforms import ToLongestPath
 
     xyz64 = tags
